@@ -417,6 +417,82 @@ B('s_count_overwritten_by_describe', ['C19'], 'R19.b',
   (STATS, "        desc_dict['count'] = hits.total_count  # need to account for reservoir count\n", ''),
   (STATS, '        cur.update(desc_dict)', "        cur['count'] = hits.total_count\n        cur.update(desc_dict)"))
 
+# ------------------------------------------------------------------ round b of seeded changes, distilled
+B('s2_match_path_memo', ['C02', 'C12', 'C08'], {'C02': 'R02.d', 'C12': 'R12', 'C08': 'R08.d'},
+  (R, "        ret = {}\n        match = self.regex.match(path)\n        if not match:\n            return None\n",
+      "        cached = self.__dict__.setdefault('_match_cache', {}).get(path)\n        if cached is not None:\n            return dict(cached)\n        ret = {}\n        match = self.regex.match(path)\n        if not match:\n            return None\n"),
+  (R, "        except (KeyError, TypeError, ValueError):\n            return None\n        return ret", "        except (KeyError, TypeError, ValueError):\n            return None\n        self._match_cache[path] = ret\n        return ret"))
+B('s2_eq_isinstance', ['C03', 'C13', 'C10'], {'C03': 'R03.d', 'C13': 'R13.b', 'C10': 'R10.c'},
+  (C, '        return type(self) == type(other)', '        return isinstance(self, type(other))'))
+B('s2_regex_reused_on_rebind', ['C05', 'C07', 'C10'], {'C05': 'R05.d', 'C07': 'R07.c', 'C10': 'R10.c'},
+  (R, '        self.regex, self.converters = _compile_path_pattern(self.pattern,\n                                                            self.slash_mode)\n',
+      "        if not prefix and hasattr(route, 'regex'):\n            self.regex, self.converters = route.regex, route.converters\n        else:\n            self.regex, self.converters = _compile_path_pattern(self.pattern,\n                                                                self.slash_mode)\n"))
+B('s2_lazy_converters', ['C05', 'C08'], {'C05': 'R05.d', 'C08': 'R08.f'},
+  (R, '        try:\n            for conv_name, conv in self.converters.items():\n                ret[conv_name] = conv(groups[conv_name])\n        except (KeyError, TypeError, ValueError):\n            return None\n        return ret',
+      '        try:\n            converted = ((name, conv(groups[name])) for name, conv in self.converters.items())\n        except (KeyError, TypeError, ValueError):\n            return None\n        ret.update(converted)\n        return ret'))
+B('s2_escape_type_test', ['C08', 'C09'], {'C08': 'R08.e', 'C09': 'R09.c'},
+  (E, '            try:\n                ret[k] = html_escape(v, True)\n            except Exception as e:\n                ret[k] = html_escape(repr(v), True)',
+      '            if not isinstance(v, (bytes, unicode)):\n                v = repr(v)\n            ret[k] = html_escape(v, True)'))
+B('s2_add_extend_or_insert', ['C10', 'C06', 'C11'], {'C10': 'R10.a', 'C06': 'R06.a', 'C11': 'R11'},
+  (A, '        for br in bound_routes:\n            self.routes.insert(index, br)\n            index += 1\n        return\n',
+      '        if index is None:\n            self.routes.extend(bound_routes)\n            return\n        for br in bound_routes:\n            self.routes.insert(index, br)\n        return\n'),
+  (A, '        if index is None:\n            index = len(self.routes)\n        rf = cast_to_route_factory(entry)', '        rf = cast_to_route_factory(entry)'))
+B('s2_find_file_exists', ['C14'], 'R14.a', (ST, '        if isfile(full_path):\n            return full_path', '        if os.path.exists(full_path):\n            return full_path'))
+B('s2_fstat_mtime', ['C14'], 'R14.d',
+  (ST, "        file_obj = open(path, 'rb')\n        mtime = get_file_mtime(path)\n        fsize = os.path.getsize(path)",
+       "        file_obj = open(path, 'rb')\n        st_ = os.fstat(file_obj.fileno())\n        mtime = datetime.utcfromtimestamp(int(st_.st_mtime))\n        fsize = st_.st_size"))
+B('s2_httpexception_is_response', ['C15'], 'R15.a',
+  (E, 'class HTTPException(BaseResponse, Exception):', 'class HTTPException(Response, Exception):'),
+  (E, 'from werkzeug.wrappers import BaseResponse\n', 'from werkzeug.wrappers import BaseResponse, Response\n'))
+B('s2_profile_reads_form', ['C15'], 'R15',
+  (PF, '        if not request.args.get(self.get_param_name):\n            return next()', '        if not request.values.get(self.get_param_name):\n            return next()'))
+B('s2_codec_mismatch', ['C16'], 'R16.b', (CK, "        ret = b''.join(base64.b64encode(ret).splitlines()).strip()", "        ret = b''.join(base64.urlsafe_b64encode(ret).splitlines()).strip()"))
+B('s2_html_before_json', ['C17'], 'R17.c',
+  (RS, "            if self._guess_json(context):\n                return Response(context, mimetype=\"application/json\")\n            elif b'<html' in context[:168]:\n                # based on the longest DOCTYPE I found in a brief search\n                return Response(context, mimetype=\"text/html\")\n            else:\n                return Response(context, mimetype=\"text/plain\")",
+       "            if b'<html' in context[:168]:\n                mimetype = \"text/html\"\n            elif self._guess_json(context):\n                mimetype = \"application/json\"\n            else:\n                mimetype = \"text/plain\"\n            return Response(context, mimetype=mimetype)"))
+T('s2_twin_label_variable', ['C17'],
+  (RS, "            if self._guess_json(context):\n                return Response(context, mimetype=\"application/json\")\n            elif b'<html' in context[:168]:\n                # based on the longest DOCTYPE I found in a brief search\n                return Response(context, mimetype=\"text/html\")\n            else:\n                return Response(context, mimetype=\"text/plain\")",
+       "            if self._guess_json(context):\n                mimetype = \"application/json\"\n            elif b'<html' in context[:168]:\n                mimetype = \"text/html\"\n            else:\n                mimetype = \"text/plain\"\n            return Response(context, mimetype=mimetype)"))
+B('s2_encoder_decodes_bytes', ['C17'], 'R17.d',
+  (RS, '    def default(self, obj):\n        if isinstance(obj, Mapping):', "    def default(self, obj):\n        if isinstance(obj, (bytes, bytearray)):\n            return bytes(obj).decode('utf8')\n        if isinstance(obj, Mapping):"))
+B('s2_key_truncated_before_test', ['C18'], 'R18.a',
+  (META, "    for key, val in _application.resources.items():\n        if 'secret' in key:", "    for key, val in _application.resources.items():\n        key = _trunc(key, 40)\n        if 'secret' in key:"))
+B('s2_default_value_in_context', ['C18'], 'R18.a',
+  (META, "            if arg in r_defaults:\n                source = 'default'\n", "            if arg in r_defaults:\n                source = 'default'\n                arg_src['default'] = r_defaults[arg]\n"))
+B('s2_cap_in_true_none', ['C19'], 'R19.c', (STATS, '        if cap is True:', '        if cap in (True, None):'))
+B('s2_captured_route_hits', ['C19'], 'R19.a',
+  (STATS, '        start_time = time.time()\n        try:\n            resp = next()', '        start_time = time.time()\n        route_hits = self.route_hits[_route]\n        try:\n            resp = next()'),
+  (STATS, '            self.route_hits[_route][resp_status].add(hit)', '            route_hits[resp_status].add(hit)'))
+B('s2_filter_mutates_caller_list', ['C20'], 'R20.b',
+  (FL, '    main_lib_dir = os.path.dirname(ast.__file__)\n    ret = [fn for fn in ret if not fn.startswith(main_lib_dir)]\n', '    main_lib_dir = os.path.dirname(ast.__file__)\n    for fn in list(ret):\n        if fn.startswith(main_lib_dir):\n            ret.remove(fn)\n'))
+B('s2_static_valueerror_breaking', ['C20', 'C14'], {'C20': 'R20.b', 'C14': 'R14.b'},
+  (ST, '        except (ValueError, IOError, OSError):\n            raise Forbidden(is_breaking=False)\n        bfr = build_file_response',
+       '        except ValueError:\n            raise Forbidden()\n        except (IOError, OSError):\n            raise Forbidden(is_breaking=False)\n        bfr = build_file_response'))
+B('s2_recursion_before_filter', ['C01', 'C02'], {'C01': 'R01.f', 'C02': 'R02.b'},
+  (S, "    inner_args = ', '.join(['%s=%s' % kv for kv in inner_arg_items\n                           if kv[0] in params_sofar])\n", ''),
+  (S, '    body_str = build_chain_str(funcs[1:], params[1:], inner_name, params_sofar, level + 1)\n',
+      "    body_str = build_chain_str(funcs[1:], params[1:], inner_name, params_sofar, level + 1)\n    inner_args = ', '.join(['%s=%s' % kv for kv in inner_arg_items\n                           if kv[0] in params_sofar])\n"))
+B('s2_method_test_before_path', ['C06'], 'R06.b',
+  (A, '            path_params = route.match_path(url_path)\n            if path_params is None:\n                continue\n', '            if dispatch_state.allowed_methods and not route.match_method(method):\n                continue\n            path_params = route.match_path(url_path)\n            if path_params is None:\n                continue\n'))
+B('s2_head_decided_before_upper', ['C06'], 'R06.d',
+  (R, "            if 'GET' in self.methods:\n                self.methods.add('HEAD')\n", ''),
+  (R, '        self.methods = methods and set([m.upper() for m in methods])\n', "        self.methods = methods and set([m.upper() for m in methods])\n        if methods and 'GET' in methods:\n            self.methods.add('HEAD')\n"))
+B('s2_query_reencoded', ['C07'], 'R07.b',
+  (A, "                                 '?', request.query_string.decode('utf8')]", "                                 '?', url_encode(request.args)]"))
+B('s2_execute_error_layers', ['C10', 'C02'], {'C10': 'R10.c', 'C02': 'R02.c'},
+  (R, "                       '_application': self.bound_apps[-1]}\n        injectables.update(self.resources)\n        injectables.update(kwargs)\n        return inject(self.render_error, injectables)",
+      "                       '_application': self.bound_apps[-1]}\n        merged = dict(kwargs)\n        merged.update(self.resources)\n        merged.update(injectables)\n        return inject(self.render_error, merged)"))
+B('s2_merge_aliases_new', ['C11', 'C03'], {'C11': 'R11.a', 'C03': 'R03.d'}, (C, '    merged = list(new)\n', '    merged = new if isinstance(new, list) else list(new)\n'))
+B('s2_mna_cached', ['C12'], 'R12',
+  (R, '            MNAType = err_handler.method_not_allowed_type\n            return MNAType(allowed_methods=_dispatch_state.allowed_methods)',
+      "            MNAType = err_handler.method_not_allowed_type\n            key = frozenset(_dispatch_state.allowed_methods)\n            if key not in self._mna_cache:\n                self._mna_cache[key] = MNAType(allowed_methods=_dispatch_state.allowed_methods)\n            return self._mna_cache[key]"))
+B('s2_last_exc_info_on_handler', ['C12', 'C08'], {'C12': 'R12', 'C08': 'R08.d'},
+  (E, '        exc_info = eh.exc_info_type.from_current()\n        return eh.server_error_type(repr(exc_info),\n                                    exc_info=exc_info,', '        eh.last_exc_info = eh.exc_info_type.from_current()\n        exc_info = eh.last_exc_info\n        return eh.server_error_type(repr(exc_info),\n                                    exc_info=exc_info,'))
+B('s2_reroute_strips_environ', ['C13'], 'R13.a',
+  (A, '        except RerouteWSGI as rre:\n            return rre.wsgi_app(environ, start_response)', "        except RerouteWSGI as rre:\n            for k in [k for k in environ if k.startswith('werkzeug.')]:\n                del environ[k]\n            return rre.wsgi_app(environ, start_response)"))
+B('s2_br_in_escaped_detail', ['C09'], 'R09.c',
+  (E, '            try:\n                ret[k] = html_escape(v, True)\n', "            try:\n                ret[k] = html_escape(v, True).replace('\\n', '<br>\\n')\n"))
+
 # ------------------------------------------------------------------ robustness twins: whole-file re-generation and renames
 ALLP = ['C%02d' % i for i in range(1, 21)]
 T('t_unparse_sinter', ['C01', 'C02', 'C03', 'C04', 'C11', 'C12'], (S, '__UNPARSE__', ''))
@@ -432,6 +508,23 @@ T('t_rename_dispatch_state', ['C06', 'C07', 'C08', 'C12', 'C02', 'C04'], (A, r'r
 T('t_rename_route_loop_var', ['C06', 'C07', 'C08', 'C12', 'C02'], (A, r're:(?<![.\w\'"])route\b', 'rt_'))
 T('t_rename_chain_locals', ['C01', 'C02', 'C03'], (S, r're:\bprovided_sofar\b', 'seen'), (S, r're:\boptional_sofar\b', 'maybe'))
 T('t_rename_mw_chain_locals', ['C01', 'C02', 'C03', 'C04'], (C, r're:\bep_avail\b', 'endpoint_available'), (C, r're:\brn_unres\b', 'render_missing'))
+T('t_rename_static_locals', ['C13', 'C14'], (ST, r're:\brel_path\b', 'normalized'), (ST, r're:\bfile_obj\b', 'fh'), (ST, r're:\bfull_path\b', 'found'),
+  (ST, r're:\bfsize\b', 'nbytes'))
+T('t_rename_static_resp', ['C13', 'C14'], (ST, r're:\bresp\b', 'file_response'), (ST, r're:\bbfr\b', 'build'))
+T('t_rename_stats_locals', ['C19', 'C15', 'C12'], (STATS, r're:\bresp\b', 'response'), (STATS, r're:\bhit\b', 'h'), (STATS, r're:\bresp_status\b', 'status_key'),
+  (STATS, r're:\bidx\b', 'slot'))
+T('t_rename_cookie_locals', ['C16', 'C15'], (CK, r're:(?<![.\w])cookie\b(?=[\s\[.,)=}:])(?! import)', 'ck'), (CK, r're:\bsave_cookie_kwargs\b', 'save_kw'))
+T('t_rename_errors_locals', ['C09', 'C06', 'C08'], (E, r're:\bfmt_name\b', 'fmt'), (E, r're:\b_method\b', 'serializer'), (E, r're:\bparams\b', 'fields'))
+T('t_rename_boundroute_locals', ['C01', 'C02', 'C03', 'C04', 'C07', 'C10', 'C11'], (R, r're:\bapp_mws\b', 'outer_mws'), (R, r're:\bapp_resources\b', 'outer_res'),
+  (R, r're:\bsrc_provides_map\b', 'sources'), (R, r're:\bprovided\b', 'avail'))
+T('t_rename_inject_locals', ['C01', 'C02'], (S, r're:\ball_kwargs\b', 'merged_kw'), (S, r're:\binner_arg_items\b', 'pairs'), (S, r're:\bouter_arg_str\b', 'sig'))
+T('t_rename_meta_locals', ['C18'], (META, r're:\btrunc_val\b', 'shown'), (META, r're:\bperi_ctx\b', 'pctx'))
+T('t_rename_flaw_locals', ['C20'], (FL, r're:\bparsed_tb\b', 'ptb'), (FL, r're:\bnon_site_files\b', 'own_files'))
+T('t_rename_render_locals', ['C17'], (RS, r're:\bresp_mime\b', 'mime'), (RS, r're:\breq_format\b', 'fmt'))
+T('t_rename_compile_pattern_locals', ['C05', 'C07', 'C10'], (R, r're:\bprocessed\b', 'parts_out'), (R, r're:\bcur_patt\b', 'patt'), (R, r're:\bcur_conv\b', 'conv'),
+  (R, r're:\bvar_converter_map\b', 'convs'))
+T('t_rename_gzip_locals', ['C15'], (GZ, r're:\bcomp_content\b', 'packed'), (GZ, r're:\bresp\b', 'response'))
+T('t_rename_app_add_locals', ['C01', 'C06', 'C10', 'C11'], (A, r're:\bbound_routes\b', 'new_routes'), (A, r're:\bbr\b', 'bound'), (A, r're:\brf\b', 'factory'))
 T('t_logging_added', ['C06', 'C07', 'C08', 'C12', 'C13'],
   (A, '        request = self.request_type(environ)\n', '        request = self.request_type(environ)\n        log = getattr(self, "_log", None)\n'),
   (A, '        dispatch_state = DispatchState()\n', '        dispatch_state = DispatchState()\n        started = None\n'))
